@@ -35,7 +35,10 @@ POOL = ["y", "Y", "x", "X1", "x1", "y^", "y*", "y_", "_y", "__y", "y__", "<p>y",
         "<>", "<<>>", ":", "a:b", "a.b", "a b", "é", "<func>", "<p>",
         # punctuation / underscores in front of a keyword: the sanitised form, not the name, decides legality
         "_class", "__pass", "^lambda", "<if", "_if", "*class", "<func>_class", "<func>^lambda", "<func>_if",
-        "None", "_None", "True", "^True", "<func>None", "<func>^True"]
+        "None", "_None", "True", "^True", "<func>None", "<func>^True",
+        # names of things the generated module defines itself
+        "initialize", "Initialize", "INITIALIZE", "run", "Run", "shutdown", "print_profile", "<func>initialize", "<func>run",
+        "set_up", "run_single_step", "next_phase", "StateComputed", "t", "dt", "numpy", "_numpy", "_functions"]
 
 PY_RESERVED = {"self.t", "self.dt", "self.next_phase", "self._numpy", "self._functions", "self.phase_transition_table",
                "self.StateComputed", "self.StepCompleted", "self.StepFailed", "self.run", "self.set_up",
